@@ -4,6 +4,7 @@ import Lemmas.CmdlineFile
 import Lemmas.CmdlineContrast
 import Lemmas.CmdlineDecl
 import Lemmas.CmdlineFull
+import Lemmas.CmdlineConv
 /-! # C10 — command-line parsing assigns exactly what the arguments say
 
 `Cmd.scan tbl acc files args` is the model of the argument loop of `(*CmdLine).Parse`, `Cmd.parse` adds the
@@ -176,7 +177,8 @@ theorem contrast_byte_wide_name_misreads_multibyte :
 `Cmd.setVar` transcribes `GeneralValue.Set` (values.go) case by case; `Cmd.applySets` applies the `Set` calls of a run,
 in order, to the store of option variables, and `Cmd.renderStore` — what the driver prints and the check compares with
 the Go variables — reads that store.  The integer, bool and string conversions are the model's own (`parseInt`,
-`parseUint`, `parseBool`); float and duration results are the parameter `orc`. -/
+`parseUint`, `parseBool`); float and duration values are computed too (`Cmd.floatVal` through `SoftFloat.parse`,
+`Cmd.parseDuration`); the parameter `orc` is only consulted for hexadecimal / digit-separated float texts. -/
 
 /-- one `Set` call, uniformly: the conversion of the kind decides acceptance and the stored value; a scalar variable
     is overwritten, a slice variable (and the harness's logging value) is appended to -/
@@ -243,6 +245,34 @@ theorem variables_after_parse (orc : Oracle) (incl : Bool) (decls : List Decl) (
         ("|" :: t.rest.map hexOf)) := by
   rw [parse_render_declared orc incl decls files es hb sps hv t ht hu]
   rfl
+
+/-! ## float and duration values are computed, not supplied
+
+`Cmd.typed` / `Cmd.setVar` convert a float text with the IEEE-754 model `SoftFloat.parse` (Model/EvalSoftFloat.lean: exact
+rational arithmetic, round to nearest even at the DECLARED width, overflow refused) and a duration text with
+`Cmd.parseDuration`, a transcription of `time.ParseDuration` whose fractions go through the float64 model as in the
+source.  The per-line oracle is consulted only for float texts that parser leaves `outside` (hexadecimal, digit
+separators). -/
+
+/-- **the conversion layer no longer has a free parameter**: for every kind, the accepted strings and the stored values
+    are the same under any two oracles — except float texts outside the model's parser -/
+theorem conversion_independent_of_oracle (orc orc' : Oracle) (b : Base) (s : Str)
+    (h32 : b = .f32 → SoftFloat.parse SoftFloat.f32 s ≠ .outside)
+    (h64 : b = .f64 → SoftFloat.parse SoftFloat.f64 s ≠ .outside) : typed orc b s = typed orc' b s :=
+  typed_oracle_free orc orc' b s h32 h64
+
+/-- an accepted duration fits `int64`: every overflow test of `ParseDuration` is in place, so the final
+    `Duration(d)` / `-Duration(d)` is exact (fails if the check behind the running total or behind a group is dropped) -/
+theorem duration_value_in_range (s : Str) (v : Int) (h : parseDuration s = some v) :
+    -((2 ^ 63 : Nat) : Int) ≤ v ∧ v < ((2 ^ 63 : Nat) : Int) :=
+  parseDuration_range s v h
+
+/-- CONTRAST: a `*float32` option converted at 64 bits and then narrowed (`float32(ParseFloat(s, 64))`) rounds twice.
+    For the text 1.00000005960464477539062500000000000000001, just above the midpoint of 1 and its float32 successor,
+    the model (as values.go, which asks `ParseFloat` for 32 bits) stores 0x3f800001, the narrowing variant 0x3f800000 -/
+theorem contrast_float32_double_rounding :
+    typed [] .f32 textAboveMidpoint = some "3f800001" ∧ floatViaF64 textAboveMidpoint = some 0x3f800000 :=
+  ⟨floatVal_midpoint, floatViaF64_midpoint⟩
 
 /-! ## response files -/
 
@@ -588,5 +618,19 @@ example : AtExit.liveFrom 0 [.reg 5, .reg 6, .unreg 0, .unreg 7] = [6] := by dec
 
 example : AtExit.runHistory (fun _ => .reExit) [.reg 5, .reg 6, .unreg 0, .unreg 7] 1 = some ([6], 1) :=
   exit_after_history _ _ _
+
+/-! kernel-evaluated instances of the conversions: `1.5h` through the float64 fraction path, the two ends of the
+    duration range, the float32 tie 2^24+1 (to even), a float64 NaN as Go's `math.NaN()` bit pattern, and the one place
+    the oracle is still consulted (a hexadecimal float) -/
+example : parseDuration [49, 46, 53, 104] = some 5400000000000 := parseDuration_frac_hours
+example : parseDuration [45, 57, 50, 50, 51, 51, 55, 50, 48, 51, 54, 56, 53, 52, 55, 55, 53, 56, 48, 56, 110, 115] =
+    some (-9223372036854775808) := parseDuration_min
+example : parseDuration [57, 50, 50, 51, 51, 55, 50, 48, 51, 54, 56, 53, 52, 55, 55, 53, 56, 48, 56, 110, 115] = none :=
+  parseDuration_over
+example : typed [] .f32 [49, 54, 55, 55, 55, 50, 49, 55] = some "4b800000" := by decide
+example : typed [] .f64 [110, 97, 110] = some "7ff8000000000001" := by decide
+example : typed [] .f64 [48, 120, 49, 112, 45, 50] = none ∧
+    typed [(tagF64, [48, 120, 49, 112, 45, 50], "3fd0000000000000")] .f64 [48, 120, 49, 112, 45, 50] =
+      some "3fd0000000000000" := by decide
 
 end C10
